@@ -371,6 +371,7 @@ func c20Select(c *Ctx, ls *ssa.Function) {
 	regKeys := map[string]bool{}
 	fromDir := false
 	var walk func(v ssa.Value, seen map[ssa.Value]bool)
+	var builtMaps []*ssa.MakeMap
 	walk = func(v ssa.Value, seen map[ssa.Value]bool) {
 		if seen[v] {
 			return
@@ -382,6 +383,7 @@ func c20Select(c *Ctx, ls *ssa.Function) {
 				walk(e, seen)
 			}
 		case *ssa.MakeMap:
+			builtMaps = append(builtMaps, x)
 			for _, ref := range *x.Referrers() {
 				if mu, ok := ref.(*ssa.MapUpdate); ok {
 					regKeys[path(mu.Key)] = true
@@ -403,6 +405,23 @@ func c20Select(c *Ctx, ls *ssa.Function) {
 	}
 	walk(ps.Call.Args[0], map[ssa.Value]bool{})
 	r.Ob("SELECT", "workspace mode reads the scripts of the workspace directory", t.Pos(ps.Pos()), fromDir, "ReadPlScriptFromDir(options.Workspace) must feed ParseScript")
+	// … all of them: a script map built by hand may reach ParseScript only in single-file mode
+	okWhole := true
+	where := ""
+	for _, mm := range builtMaps {
+		single := false
+		for _, ec := range controlling(mm.Block()) {
+			es := ec.String()
+			if strings.Contains(es, ".Workspace") && (strings.HasPrefix(es, "!(") && strings.Contains(es, "!= \"\"") || !strings.HasPrefix(es, "!(") && strings.Contains(es, "== \"\"")) {
+				single = true
+			}
+		}
+		if !single {
+			okWhole = false
+			where = t.Pos(mm.Pos())
+		}
+	}
+	r.Ob("SELECT", "workspace mode hands the whole workspace to the loader", t.Pos(ps.Pos()), okWhole, "a map of scripts assembled in loadScript reaches ParseScript outside the single-file arm ("+where+"): a script that use()s a sibling needs every script of the workspace loaded")
 	// lookups in the results
 	n := 0
 	allInstrs(ls, func(in ssa.Instruction) {
